@@ -445,6 +445,15 @@ func c01FilterSweep(c *C, filter string, vi int) {
 			_ = v.String()
 			_ = v.IsTrue()
 			_ = v.Len()
+			// MustApplyFilter panics exactly when ApplyFilter returns an error: not here
+			if perr := func() (perr any) {
+				defer func() { perr = recover() }()
+				pongo2.MustApplyFilter(filter, pongo2.AsValue(e.val), pv)
+				return nil
+			}(); perr != nil {
+				c.Fail("panic", D{"call": "MustApplyFilter", "filter": filter, "input": e.desc, "param": fmt.Sprintf("%#v", p), "panic": fmt.Sprint(perr), "why": "ApplyFilter succeeds for the same arguments"})
+				return
+			}
 		}
 		if err1 == nil {
 			c01Exec(t1, pongo2.Context{"v": e.val, "p": p}, pi)
